@@ -17,6 +17,7 @@ class C17(Prop):
     id = "C17"
     prop_file = "Props/C17"
     level = "proof"
+    extended_driver = True
     quick_n = 2500
     thorough_n = 60000
     case_timeout = 20.0
@@ -109,6 +110,8 @@ class C17(Prop):
         same text, accept the tree (executable hypotheses of the theorem), and denote the value the tree was made from."""
         if not ctx["build"].ok:
             return []
+        if not ctx["build"].driverx_ok:
+            return [({"kind": "build", "mode": "build"}, "the extended model driver (Extract/DriverSchema.v) failed to build")]
         rng = random.Random(seed ^ 0xC57)
         n = 600 if tier == "quick" else 12000
         cases = []
@@ -117,7 +120,7 @@ class C17(Prop):
             v = rfc4512.g_value(rng, kind)
             tree = cstmod.make(rng, kind, v, ad_syntax=(kind == "attribute_type" and rng.random() < 0.3))
             cases.append({"kind": kind, "v": v, "tree": tree, "text": cstmod.render(kind, tree), "mode": "tree"})
-        ans = model.run_batch([[CST_CMD[c["kind"]], c["tree"]] for c in cases])
+        ans = model.run_batch([[CST_CMD[c["kind"]], c["tree"]] for c in cases], extended=True)
         out = []
         self.trees = 0
         for c, a in zip(cases, ans):
@@ -146,7 +149,7 @@ class C17(Prop):
         for _ in range(300):
             t = "".join(rng.choice(["1", "2", "0", "10", ".", ".", "{", "}", "'", "a", ""]) for _ in range(rng.randint(1, 10)))
             jobs.append((3, schema.NOIDLEN_MATCH, t))
-        ans = model.run_batch([[340, i, U(t)] for i, _, t in jobs])
+        ans = model.run_batch([[340, i, U(t)] for i, _, t in jobs], extended=True)
         out = []
         self.engine_cases = 0
         for (i, p, t), a in zip(jobs, ans):
